@@ -4,6 +4,8 @@ import GomlVerif.Lemmas.C03presAnfScope
 import GomlVerif.Lemmas.C03presMono
 import GomlVerif.Model.C03presSig
 import GomlVerif.Lemmas.C03presMatch
+import GomlVerif.Lemmas.C03presScopeLink
+import GomlVerif.Lemmas.C03presLift
 /-!
 # C03 proper — the passes PRESERVE well-typedness and closedness
 
@@ -176,6 +178,71 @@ example : wt {fns := []} ΓTmp eTmp = true := by decide +kernel
 example : errs {fns := []} ΓTmp (anf eTmp 0 ret).1 = ["var:annotation-differs-from-binder|prim/prim"] := by
   decide +kernel
 
+/-! ## Lift (`lift.rs`, model `Model/Lift.lean`, tied by `./check C08`) -/
+
+section LiftP
+open Goml.Lift
+
+/-- `lift_preserves_closed`: every function `lambda_lift` emits — the lifted originals and the generated
+apply functions — is scope-closed under its own parameters, the globals `G` of the input and the names of
+the generated apply functions, and those apply functions are among the emitted functions.  In particular
+the apply function of a closure is closed: each captured variable is re-bound from its environment field
+(`let x = env.<i>`, `fvB_rebind_iff`) before use, so its free variables are the environment parameter and
+the closure's own parameters.  Hypothesis `presHypFns G fns` (decidable, evaluated on every real Mono dump):
+every input function is closed under its parameters and `G`, and `presHypArity`: a closure node has no more
+parameters than its function type has parameter types (`loweredParams` zips the two lists — a surplus
+parameter would not be bound by the apply function; `example badArity`), arm heads are plain patterns. -/
+theorem lift_preserves_closed (env : Lift.Env) (fns : List Fn) (G : String → Bool)
+    (h : presHypFns G fns = true) :
+    (∀ g ∈ (liftFile env fns).1,
+      presHypClosedFn (liftGlobals G (liftFile env fns).2.newFns) g = true) ∧
+    (∀ a ∈ (liftFile env fns).2.newFns, a ∈ (liftFile env fns).1) :=
+  Goml.Lift.lift_preserves_closed env fns G h
+
+/-- the same for the stage predicate `Scoped.scopedFns` (chains with `anf_file_preserves_scoped`) -/
+theorem lift_preserves_scoped (env : Lift.Env) (fns : List Fn) (G : List String)
+    (ha : fns.all (fun f => presHypArity f.body) = true) (h : scopedFns G fns = true) :
+    scopedFns (G ++ (liftFile env fns).2.newFns.map (·.name)) (liftFile env fns).1 = true :=
+  Goml.Lift.lift_preserves_scoped env fns G ha h
+
+/-- Lift → ANF: a scoped Mono file stays scoped through both passes -/
+theorem lift_anf_preserves_scoped (env : Lift.Env) (fns : List Fn) (G : List String) (n : Nat)
+    (ha : fns.all (fun f => presHypArity f.body) = true) (h : scopedFns G fns = true)
+    (hf : (anfFragFlags (liftFile env fns).1 n).all (fun b => b) = true) :
+    scopedFns (G ++ (liftFile env fns).2.newFns.map (·.name)) (anfFns (liftFile env fns).1 n).1 = true :=
+  anf_file_preserves_scoped _ _ n hf (lift_preserves_scoped env fns G ha h)
+
+/-- `lift_preserves_closedTy` (type closedness): if every type of the lifting environment and every annotation
+of every input function is free of type parameters, type applications and inference variables, so is every
+annotation of every emitted function (the generated `closure_env_*` struct types are plain struct types) -/
+theorem lift_preserves_closedTy (env : Lift.Env) (fns : List Fn)
+    (henv : presHypEnvTys closedTy env = true) (hf : presHypFnsTys closedTy fns = true) :
+    ∀ g ∈ (liftFile env fns).1, fnAllTys closedTy g = true :=
+  Goml.Lift.lift_preserves_closedTy env fns henv hf
+
+/-- `lift_preserves_wt_partial` — typing, the closure-free part only.  Lift is NOT type-consistent for
+closures in the current reading of `Wt` (known finding `closure-struct-vs-function-type`: a closure becomes a
+value of its `closure_env_*` struct type while the positions it flows through keep `TFunc`), so the judgement
+is relaxed exactly there: nothing is claimed for closure values and the calls through them.  On an
+expression without closure nodes, before any closure type is registered (`st.closureTypes = []`), with the
+recomputed annotations already in place (`presHypStable`, decidable), `transform_expr` returns the expression
+itself, so `Wt.errs` is unchanged whatever `Σ`, `Γ`. -/
+theorem lift_preserves_wt_partial (S : Sig) (Γ : TyEnv) (st : Lift.State) (sc : Lift.Scope) (e : Expr)
+    (hct : st.closureTypes = []) (hnc : noClosure e = true) (hs : presHypStable st sc e = true) :
+    transformExpr st sc e = (e, monoTy e, st) ∧
+    errs S Γ (transformExpr st sc e).1 = errs S Γ e ∧
+    wt S Γ (transformExpr st sc e).1 = wt S Γ e :=
+  Goml.Lift.lift_preserves_wt_partial S Γ st sc e hct hnc hs
+
+/-- a closure-free function lifted before any closure of the file is returned unchanged -/
+theorem liftFn_preserves_wt_partial (S : Sig) (st : Lift.State) (f : Fn)
+    (hnc : noClosure f.body = true) (hs : presHypStableFn st f = true) :
+    (liftFn st f).1 = f ∧ wtFn S (liftFn st f).1 = wtFn S f ∧
+      (liftFn st f).2.newFns = st.newFns ∧ (liftFn st f).2.closureTypes = [] :=
+  Goml.Lift.liftFn_preserves_wt_partial S st f hnc hs
+
+end LiftP
+
 /-! ## Mono (`mono.rs`, model `Model/Mono.lean`, tied by `./check C07`) -/
 
 section Mono
@@ -276,6 +343,11 @@ theorem compileLet_closed (S : Match.Sig) (hgen : S.gen = realGen) (fuel : Nat) 
     (hc : compileLet S fuel ty mtmp n e pat rest restTy = some (.ok (out, n')))
     (hyp : presHypLet S Γ mtmp e pat rest restTy = true) : closedE Γ out = true :=
   Goml.Match.compileLet_closed S hgen fuel ty mtmp n e pat rest restTy out n' Γ hc hyp
+
+/-- the statement of scope closedness used for ANF (`Scoped.unbound … = []`, also the driver's oracle on
+every real dump) and the one used for the match compiler (`Match.closedE`) are the same notion -/
+theorem scoped_iff_closedE (B : List String) (e : Expr) : unbound B e = [] ↔ closedE B e = true :=
+  unbound_nil_iff_closedE B e
 
 end MatchC
 
